@@ -299,6 +299,12 @@ func (p *provider) Instance(ctx context.Context, ips ...gostatsd.Source) (map[go
 	return res, err
 }
 
+func (p *provider) callCount() int {
+	p.mu.Lock()
+	defer p.mu.Unlock()
+	return len(p.calls)
+}
+
 func (p *provider) occurrences(s string) int {
 	p.mu.Lock()
 	defer p.mu.Unlock()
@@ -321,14 +327,32 @@ type answer struct {
 }
 
 type drainer struct {
-	r   *mon.Run
-	mu  sync.Mutex
-	ans []answer
-	cnt map[string]int
+	r     *mon.Run
+	mu    sync.Mutex
+	ans   []answer
+	cnt   map[string]int
+	pause chan struct{} // while non-nil the consumer does not read InfoSource (a slow consumer)
+}
+
+func (d *drainer) setPause(c chan struct{}) {
+	d.mu.Lock()
+	d.pause = c
+	d.mu.Unlock()
 }
 
 func (d *drainer) run(ctx context.Context, src <-chan gostatsd.InstanceInfo) {
 	for {
+		d.mu.Lock()
+		gate := d.pause
+		d.mu.Unlock()
+		if gate != nil {
+			select {
+			case <-ctx.Done():
+				return
+			case <-gate:
+				d.setPause(nil)
+			}
+		}
 		select {
 		case <-ctx.Done():
 			return
@@ -1667,6 +1691,275 @@ func runConc(r *mon.Run, idx int, wd time.Duration) bool {
 }
 
 // ---------------------------------------------------------------------------------------------
+// churn runs: idle deadlines pass while Peek readers hammer the same entries (model-free oracle)
+
+func runChurn(r *mon.Run, idx int, wd time.Duration) bool {
+	rng := r.Rand(fmt.Sprintf("churn-%d", idx))
+	batch := []int{2, 5, 16}[rng.Intn(3)]
+	opts := gostatsd.CacheOptions{CacheRefreshPeriod: 100 * time.Microsecond, CacheTTL: time.Hour, CacheNegativeTTL: time.Hour, CacheEvictAfterIdlePeriod: time.Duration(2+rng.Intn(4)) * time.Millisecond}
+	e, ok := newEnv(r, opts, batch, "", r.Rand(fmt.Sprintf("churn-%d-provider", idx)))
+	defer e.close()
+	r.Eval(1)
+	if !ok {
+		r.Inconclusive("refresh-ticker-not-created")
+		return false
+	}
+	universe := 40 + rng.Intn(100)
+	pool := make([]string, universe)
+	for i := range pool {
+		pool[i] = fmt.Sprintf("10.5.0.%d", i+1)
+	}
+	npeek := 3 + rng.Intn(3)
+	nticks := 150 + rng.Intn(250)
+	rc := replayCase{Mode: "churn", Index: idx, Batch: batch, Regime: fmt.Sprintf("idle=%v", opts.CacheEvictAfterIdlePeriod), Steps: []string{fmt.Sprintf("sources=%d peekers=%d ticks=%d", universe, npeek, nticks)}}
+	submitted := 0
+	for _, src := range pool {
+		if !e.submit(src, wd) {
+			r.Inconclusive("ipsink-blocked")
+			return false
+		}
+		submitted++
+	}
+	stop := make(chan struct{})
+	var bg sync.WaitGroup
+	for g := 0; g < npeek; g++ {
+		grng := r.Rand(fmt.Sprintf("churn-%d-peeker%d", idx, g))
+		bg.Add(1)
+		go func() {
+			defer bg.Done()
+			n := 0
+			for {
+				select {
+				case <-stop:
+					r.Event("peeks", n)
+					return
+				default:
+				}
+				// a burst over neighbouring entries, then a pause comparable to the idle period
+				// (pacing of the workload: entries must get idle between two reads)
+				base := grng.Intn(len(pool))
+				for k := 0; k < 1+grng.Intn(12); k++ {
+					e.ccp.Peek(gostatsd.Source(pool[(base+k)%len(pool)]))
+					n++
+				}
+				time.Sleep(time.Duration(grng.Intn(400)) * time.Microsecond)
+			}
+		}()
+	}
+	// clients keep re-submitting, so that evicted sources come back
+	resub := make([]int, 2)
+	blocked := make([]bool, 2)
+	var cwg sync.WaitGroup
+	for g := 0; g < 2; g++ {
+		g := g
+		grng := r.Rand(fmt.Sprintf("churn-%d-client%d", idx, g))
+		cwg.Add(1)
+		go func() {
+			defer cwg.Done()
+			for i := 0; i < nticks/2; i++ {
+				if !e.submit(pool[grng.Intn(len(pool))], wd) {
+					blocked[g] = true
+					return
+				}
+				resub[g]++
+				time.Sleep(time.Duration(grng.Intn(300)) * time.Microsecond)
+			}
+		}()
+	}
+	// refresh ticks stamped (about) with the real time: whether an entry is idle at a tick depends on
+	// when it was last read - schedule dependent, and not asserted
+	for i := 0; i < nticks; i++ {
+		e.mock.Set(wallNow())
+		r.Event("refresh_ticks", 1)
+		time.Sleep(time.Duration(50+rng.Intn(200)) * time.Microsecond)
+	}
+	cwg.Wait()
+	close(stop)
+	bg.Wait()
+	for g := range resub {
+		if blocked[g] {
+			r.Inconclusive("ipsink-blocked")
+			return false
+		}
+		submitted += resub[g]
+	}
+	if !mon.WaitUntil(wd, func() bool { return e.dr.total() >= submitted }) {
+		r.Inconclusive("churn-run-not-quiescent")
+		return false
+	}
+	ems, ok := emission(e.ctx, e.ccp, wd) // also the barrier for the last tick
+	if !ok {
+		r.Inconclusive("stats-emission-not-observed")
+		return false
+	}
+	// nothing can change any more: no tick pending, no lookup outstanding. Probe every source once.
+	pos, neg := 0, 0
+	for _, src := range pool {
+		if inst, hit := e.ccp.Peek(gostatsd.Source(src)); hit {
+			if inst != nil {
+				pos++
+			} else {
+				neg++
+			}
+		}
+	}
+	em := ems[len(ems)-1]
+	if em[gPos] != float64(pos) || em[gNeg] != float64(neg) {
+		which := gPos
+		if em[gPos] == float64(pos) {
+			which = gNeg
+		}
+		r.Violation("gauge-differs-from-cache-content:"+which, fmt.Sprintf("after %d refresh ticks raced by %d Peek readers over %d sources (idle period %v) and with nothing outstanding: cache_positive=%v cache_negative=%v, but probing every source finds %d entries with and %d without an instance", nticks, npeek, universe, opts.CacheEvictAfterIdlePeriod, em[gPos], em[gNeg], pos, neg), rc)
+	}
+	r.Event("churn_runs", 1)
+	r.Event("churn_entries_evicted_at_end", universe-pos-neg)
+	r.Event("churn_resubmissions", submitted-universe)
+	if e.prov.callCount() > (universe+batch-1)/batch && universe-pos-neg > 0 {
+		// sources were evicted and came back (more provider traffic than the initial fill) and some are gone at the end
+		r.Nontrivial(fmt.Sprintf("churn:b%d:idle=%v:peekers=%d:size=%d", batch, opts.CacheEvictAfterIdlePeriod, npeek, universe/20))
+	}
+	return true
+}
+
+// ---------------------------------------------------------------------------------------------
+// long-hold history: a provider call, and an InfoSource consumer, that take several seconds
+
+type longHoldResult struct {
+	progress, detail string
+	rc               replayCase
+	inconclusive     string
+}
+
+// runLongHold runs two lanes side by side for `hold` of real time (workload shaping, like an upstream
+// latency): lane 1 holds a provider call with a batch of >= 4 sources open, lane 2 answers at once
+// but its consumer does not read InfoSource. After the release every source of either batch must get
+// exactly one answer.
+func runLongHold(r *mon.Run, idx int, hold, wd time.Duration) longHoldResult {
+	rng := r.Rand(fmt.Sprintf("longhold-%d", idx))
+	res := longHoldResult{rc: replayCase{Mode: "longhold", Index: idx}}
+	n := 4 + rng.Intn(3)
+	batch := []int{5, 16}[rng.Intn(2)]
+	if n > batch {
+		n = batch
+	}
+	script := string(outcomes[rng.Intn(len(outcomes))])
+	res.rc.Batch, res.rc.Script = batch, script
+	res.rc.Steps = []string{fmt.Sprintf("hold=%v sources=%d", hold, n)}
+	e1, ok1 := newEnv(r, heldRegime.opts, batch, script, nil)
+	defer e1.close()
+	e2, ok2 := newEnv(r, heldRegime.opts, batch, script, nil)
+	defer e2.close()
+	if !ok1 || !ok2 {
+		res.inconclusive = "refresh-ticker-not-created"
+		return res
+	}
+	var srcs []string
+	for i := 0; i < n; i++ {
+		srcs = append(srcs, fmt.Sprintf("10.6.0.%d", i+1))
+	}
+	e1.prov.arm(nil)
+	defer e1.prov.release()
+	gate := make(chan struct{})
+	e2.dr.setPause(gate)
+	released := false
+	defer func() {
+		if !released {
+			close(gate)
+		}
+	}()
+	for _, src := range srcs {
+		if !e1.submit(src, wd) || !e2.submit(src, wd) {
+			res.inconclusive = "ipsink-blocked"
+			return res
+		}
+	}
+	if !mon.WaitUntil(wd, func() bool { _, h := e1.prov.held(); return h }) {
+		res.inconclusive = "long-hold-provider-call-not-reached"
+		return res
+	}
+	if !mon.WaitUntil(wd, func() bool { return e2.prov.callCount() >= 1 }) {
+		res.inconclusive = "long-hold-provider-call-not-reached"
+		return res
+	}
+	heldIps, _ := e1.prov.held()
+	time.Sleep(hold) // the latency itself
+	e1.prov.release()
+	close(gate)
+	released = true
+	check := func(e *env, lane, tok string, want map[string]int) bool {
+		okq := mon.WaitUntil(wd, func() bool {
+			for s, w := range want {
+				if e.dr.count(s) < w {
+					return false
+				}
+			}
+			return true
+		})
+		if !okq {
+			for _, s := range srcs {
+				if a := e.dr.count(s); a < want[s] {
+					res.progress = "answer-missing:" + tok
+					res.detail = fmt.Sprintf("%s for %v (batch limit %d, outcome %s, sources %v): source %s was queried %d times but %d answers arrived on InfoSource within %v after the release", lane, hold, batch, script, srcs, s, want[s], a, wd)
+					return false
+				}
+			}
+		}
+		time.Sleep(15 * time.Millisecond) // observation window for a second answer
+		for _, s := range srcs {
+			if a, o := e.dr.count(s), e.prov.occurrences(s); a != o {
+				r.Violation("more-answers-than-queries", fmt.Sprintf("%s for %v: source %s was queried %d times, %d answers arrived", lane, hold, s, o, a), res.rc)
+				return false
+			}
+		}
+		wantRes, gotRes := map[string][]string{}, map[string][]string{}
+		for _, c := range e.prov.since(0) {
+			for i, ip := range c.Ips {
+				wantRes[ip] = append(wantRes[ip], instString(c.Results[i]))
+			}
+		}
+		for _, a := range e.dr.all() {
+			gotRes[a.Src] = append(gotRes[a.Src], instString(a.Inst))
+		}
+		if d := diffMultisets(wantRes, gotRes); d != "" {
+			r.Violation("answers-differ-from-provider-results", lane+": "+d, res.rc)
+			return false
+		}
+		return true
+	}
+	want := map[string]int{}
+	for _, s := range srcs {
+		want[s] = 1
+	}
+	r.Event("long_hold_lanes", 2)
+	if len(heldIps) >= 4 {
+		r.Nontrivial(fmt.Sprintf("longhold:b%d:n=%d:%s", batch, len(heldIps), script))
+	}
+	if !check(e1, "a provider call held open", "after-long-provider-call", want) {
+		return res
+	}
+	check(e2, "an InfoSource consumer that did not read", "after-slow-infosource-consumer", want)
+	return res
+}
+
+func longHoldCase(r *mon.Run, idx int) {
+	hold := 6*time.Second + time.Duration(r.Rand(fmt.Sprintf("longhold-%d-d", idx)).Intn(1000))*time.Millisecond
+	r.Case("longhold %d hold=%v", idx, hold)
+	res := runLongHold(r, idx, hold, 4*time.Second)
+	r.Eval(1)
+	switch {
+	case res.inconclusive != "":
+		r.Inconclusive(res.inconclusive)
+	case res.progress != "":
+		res2 := runLongHold(r, idx, hold, 4*time.Second)
+		if res2.progress == res.progress {
+			r.Violation(res.progress, res2.detail+"\n(reproduced twice)", res2.rc)
+		} else {
+			r.Inconclusive("watchdog:" + res.progress)
+		}
+	}
+}
+
+// ---------------------------------------------------------------------------------------------
 
 // caseList enumerates all provider outcome scripts up to maxLen, crossed with the batch limits, and
 // adds `extra` PRNG-drawn scripts of length 3-4 (the same list in every shard).
@@ -1739,7 +2032,7 @@ func seqCase(r *mon.Run, idx int, spec caseSpec) (abort bool) {
 func TestCheck(t *testing.T) {
 	r := mon.Start(t, "C12")
 	defer r.Finish()
-	r.Rule("sequential cases: every provider outcome script over {F full, P partial, E empty, X error, Y error+partial} up to length 2 (quick) / 4 (thorough) crossed with MaxInstancesBatch 1,2,5,16 (plus PRNG scripts of length 3-4 in quick), each wrapped in a PRNG history of 6-17 steps over {submit 1-4 sources incl. duplicates, Peek, refresh tick at an instant chosen in a region between the bracketed idle/TTL boundaries, 3 ms real gap}, cache options drawn from four sets (hours / tens of ms); held cases: batch limit 1 or 2, batch+2..3 resolved sources brought past their TTL in one tick while the provider call that follows is held open by the harness, so refresh lookups queue behind it; during the hold two more resolved sources pass their idle deadline one after the other at further ticks (4 ticks in all incl. the mock's stale deadlines) and must be evicted (Peek miss, gauges) although a lookup is outstanding; after the release every query is answered once (a second enqueue of a source already queued is allowed, not required); concurrent cases: 2-4 submitting clients, 2 Peek readers, no-op refresh ticks, emitter, random provider outcomes. Non-trivial: the history contained a failed/empty refresh of a resolved source, a partial result with an absent source, or an eviction; distinct by (script, batch limit, which of these occurred); concurrent runs by (batch, clients, sources, failed-after-good).")
+	r.Rule("sequential cases: every provider outcome script over {F full, P partial, E empty, X error, Y error+partial} up to length 2 (quick) / 4 (thorough) crossed with MaxInstancesBatch 1,2,5,16 (plus PRNG scripts of length 3-4 in quick), each wrapped in a PRNG history of 6-17 steps over {submit 1-4 sources incl. duplicates, Peek, refresh tick at an instant chosen in a region between the bracketed idle/TTL boundaries, 3 ms real gap}, cache options drawn from four sets (hours / tens of ms); held cases: batch limit 1 or 2, batch+2..3 resolved sources brought past their TTL in one tick while the provider call that follows is held open by the harness, so refresh lookups queue behind it; during the hold two more resolved sources pass their idle deadline one after the other at further ticks (4 ticks in all incl. the mock's stale deadlines) and must be evicted (Peek miss, gauges) although a lookup is outstanding; after the release every query is answered once (a second enqueue of a source already queued is allowed, not required); churn runs: 40-140 resolved sources, idle period 2-5 ms, 150-400 refresh ticks stamped with the real time while 3-5 Peek readers and 2 re-submitting clients work on the same entries; at quiescence the cache-size gauges must equal what a probe of every source finds (which entries survive is not asserted); one long-hold history per run (a provider call with >= 4 sources held open, and an InfoSource consumer that does not read, for 6-7 s of real time): every source still gets exactly one answer; concurrent cases: 2-4 submitting clients, 2 Peek readers, no-op refresh ticks, emitter, random provider outcomes. Non-trivial: the history contained a failed/empty refresh of a resolved source, a partial result with an absent source, or an eviction; distinct by (script, batch limit, which of these occurred); concurrent runs by (batch, clients, sources, failed-after-good).")
 	r.Assume("real-clock readings of the provider (expires, lastAccess) lie inside the wall-clock brackets recorded by the harness around the provider call / Peek; the wall clock does not jump during a case")
 	r.Assume("a stats emission is accepted by the Run goroutine only while it is parked in select (non-blocking hand-over), which is used as the barrier for a processed refresh tick")
 
@@ -1751,6 +2044,11 @@ func TestCheck(t *testing.T) {
 		if rc.Mode == "conc" {
 			r.Case("conc %d", rc.Index)
 			runConc(r, rc.Index, 10*time.Second)
+		} else if rc.Mode == "churn" {
+			r.Case("churn %d", rc.Index)
+			runChurn(r, rc.Index, 10*time.Second)
+		} else if rc.Mode == "longhold" {
+			longHoldCase(r, rc.Index)
 		} else if rc.Script == "held" {
 			heldCase(r, rc.Index)
 		} else {
@@ -1761,6 +2059,17 @@ func TestCheck(t *testing.T) {
 		return
 	}
 
+	// one long-hold history per quick run (shard 0 only; shards 0-3 in the thorough tier); it spends
+	// 6-7 s of real time waiting, so it runs beside the other cases of its shard
+	var lh sync.WaitGroup
+	defer lh.Wait()
+	if sh, _ := r.Shard(); sh < r.Pick(1, 4) {
+		lh.Add(1)
+		go func() {
+			defer lh.Done()
+			longHoldCase(r, sh)
+		}()
+	}
 	for i, n := 0, r.N(24, 480); i < n; i++ {
 		if heldCase(r, i) {
 			r.Extra("aborted_after_progress_violation", 1)
@@ -1777,6 +2086,10 @@ func TestCheck(t *testing.T) {
 			r.Extra("aborted_after_progress_violation", 1)
 			return
 		}
+	}
+	for i, n := 0, r.N(24, 320); i < n; i++ {
+		r.Case("churn %d", i)
+		runChurn(r, i, 10*time.Second)
 	}
 	nConc := r.N(32, 320)
 	stuck := 0
